@@ -105,6 +105,14 @@ BUILT = {
         'form when short, otherwise tokens preserved in order and no line longer than its limit unless it holds a single token.',
    note=BASE_NOTE + '; exact structured-string domain (pvc/sstr.py) instead of an SMT string theory; number of ids 1-3(4) and of tokens 1-4 enumerated '
         '(integers / token lengths symbolic); larger collections by a labelled bounded check; more_itertools.consecutive_groups re-implemented from its documentation'),
+ 'C14': dict(level='other', sec='4/C14',
+   text='Deductive (structured strings: species names are unknown words of symbolic length, coefficients symbolic reals): printing 1-3 '
+        'species and parsing the text back gives the same names in order and coefficients within the printed precision for the delimiters '
+        '+, " + ", >> and formats .2f/.4f; integer / omitted / repeated coefficients merge by summation; transition state iff three states; '
+        'missing species raise KeyError (or warn); the balance check raises exactly when the element totals differ (with and without TS); '
+        'formulas with repeats parse to summed counts. Bounded (labelled): full to_string/from_string round trips over the whole alphabet, '
+        'more delimiters and whitespace, random formulas, brute-force balance comparison.',
+   note=BASE_NOTE + '; structured-string domain re-implements str.split/strip and the regex ^\\d+\\.?\\d* on its pieces; np.isclose and %.Nf rounding axiomatised'),
 }
 REASON_PENDING = 'check not built yet (build phase in progress; see DESIGN.md section 10)'
 checks = []
